@@ -303,6 +303,8 @@ func checkTwoStageCand(tr []string, n int, cand []bool, n1, n2 int, sorted1, sor
 		}
 	}
 	vnd.RequireJoined("ret")
+	vnd.NoRaces("var:eMsg")
+	vnd.NoRaces("engine.Gengine.returnResult")
 	vnd.StopIfViolated()
 	for _, i := range ord {
 		vnd.Assert(vnd.Iff(vnd.Count(ename(i)) == 1, !f[i]), "a rule ends iff it does not fail")
@@ -534,6 +536,8 @@ func checkDAG(n int, layers [][]int, f []bool, err error) {
 		}
 	}
 	vnd.RequireJoined("ret")
+	vnd.NoRaces("var:eMsg")
+	vnd.NoRaces("engine.Gengine.returnResult")
 	vnd.StopIfViolated()
 	vnd.Assert(vnd.Iff(err != nil, anyFail), "error iff a rule of a started layer failed")
 	for i := 0; i < n; i++ {
